@@ -607,3 +607,7 @@ _more("C02", "Added (C02-ncalls): event_active_nolock_ over queue flags x event 
 _more("C03", "Added (C03-internal-prio): every event marked EVLIST_INTERNAL is given priority 0 where it is set up (the priority scan goes on below a queue that held only internal callbacks).")
 _more("C05", "Added (C05-epoll-use): C06's rule on how epoll_apply_one_change uses the operation table, in particular EPOLLET exactly when a change byte carries the ET bit.")
 _more("C07", "Added to C07-target: file-scope state the signal handler itself writes is reset in evsig_init_ or in every function that closes the signalling socket.")
+_more("C10", "Added (C10-schedule-ret): event_callback_activate(_later)_nolock_ against C02's reference model, return value included: 'newly scheduled' is reported exactly when the callback was in no "
+             "queue (bufferevents and evbuffers take a reference exactly then).")
+_more("C13", "Added (C13-reset-first): evbuffer_run_callbacks never resets the pending counters after a user callback may have run in the same call.")
+_more("C12", "The layout family now holds an empty chain whose misalign sits at its end (what a failed evbuffer_prepend leaves behind).")
